@@ -83,7 +83,11 @@ def cells(tier):
         out.append({'kind': 'smtp', 'form': 'quoted', 'k': 3, 'ext': 'none',
                     'b': 0})
     for form in ('atext', 'utf8', 'quoted'):
-        out.append({'kind': 'http', 'form': form, 'k': k})
+        cell = {'kind': 'http', 'form': form, 'k': k}
+        if tier != 'quick' and form == 'utf8':
+            out = api.shards(cell, 16, 10) + out     # > 40 CPU-minutes
+        else:
+            out.append(cell)
     out.append({'kind': 'httpreply'})
     return out
 
